@@ -398,12 +398,36 @@ func ruleOptsImmutable(c *Ctx) {
 	})
 	c.ob(rule, c.funcName(cfd)+":returns-fresh", cfd.Pos(), retFresh, "the cloner hands back the caller's own pointer on some path: the loader factory and the transitive resolver then write the pseudo-root / visited-document location into the caller's struct")
 	// every function with an *ExpandOptions parameter that is exported (or is the context constructor): parameter only flows to the cloner, a nil test, or another exported function's options parameter
+	// The functions that can see a caller's own pointer: the exported ones, and (transitively) every package
+	// function one of them hands its un-cloned parameter to.
+	facing := map[*types.Func]bool{}
+	var work []*types.Func
 	for _, f := range c.pkgFuncs() {
-		if f == cloner {
-			continue
+		if f != cloner && (f.Exported() || f.Name() == "resolveAnyWithBase" || f.Name() == "newResolverContext") {
+			facing[f] = true
+			work = append(work, f)
 		}
+	}
+	// takesOptsAt: the call passes the identifier in a position whose parameter is an *ExpandOptions
+	takesOptsAt := func(g *types.Func, call *ast.CallExpr, id *ast.Ident) bool {
+		gs := g.Type().(*types.Signature)
+		for k, a := range call.Args {
+			if unparen(a) == ast.Expr(id) && k < gs.Params().Len() {
+				if _, isPtr := gs.Params().At(k).Type().(*types.Pointer); isPtr && isNamed(gs.Params().At(k).Type(), c.Types, "ExpandOptions") {
+					return true
+				}
+			}
+		}
+		return false
+	}
+	for len(work) > 0 {
+		f := work[0]
+		work = work[1:]
 		sig := f.Type().(*types.Signature)
 		fd := c.decl(f)
+		if fd == nil || fd.Body == nil {
+			continue
+		}
 		for i := 0; i < sig.Params().Len(); i++ {
 			if !isNamed(sig.Params().At(i).Type(), c.Types, "ExpandOptions") {
 				continue
@@ -411,10 +435,10 @@ func ruleOptsImmutable(c *Ctx) {
 			if _, isPtr := sig.Params().At(i).Type().(*types.Pointer); !isPtr {
 				continue
 			}
-			if !f.Exported() && f.Name() != "resolveAnyWithBase" && f.Name() != "newResolverContext" {
+			po := c.paramObj(fd, i)
+			if po == nil {
 				continue
 			}
-			po := c.paramObj(fd, i)
 			c.saw(c.funcName(fd))
 			var bad []string
 			parents := map[ast.Node]ast.Node{}
@@ -430,10 +454,24 @@ func ruleOptsImmutable(c *Ctx) {
 				stack = append(stack, n)
 				return true
 			})
-			reassigned := false
+			// `options = optionsOrDefault(options)` rebinds the local name to the clone: later uses are uses of the clone
+			rebindPos := token.Pos(0)
+			for _, top := range fd.Body.List {
+				as, ok := top.(*ast.AssignStmt)
+				if !ok || len(as.Lhs) != 1 || len(as.Rhs) != 1 || rebindPos != 0 {
+					continue
+				}
+				if id, ok := as.Lhs[0].(*ast.Ident); ok && c.objOf(id) == po {
+					if call, ok := unparen(as.Rhs[0]).(*ast.CallExpr); ok {
+						if g, ok := c.callee(call).(*types.Func); ok && g == cloner {
+							rebindPos = as.End()
+						}
+					}
+				}
+			}
 			ast.Inspect(fd.Body, func(n ast.Node) bool {
 				id, ok := n.(*ast.Ident)
-				if !ok || c.objOf(id) != po {
+				if !ok || c.objOf(id) != po || rebindPos != 0 && id.Pos() >= rebindPos {
 					return true
 				}
 				switch par := parents[id].(type) {
@@ -442,7 +480,11 @@ func ruleOptsImmutable(c *Ctx) {
 						if g == cloner {
 							return true
 						}
-						if g.Pkg() == c.Types && (g.Exported() || g.Name() == "resolveAnyWithBase") {
+						if g.Pkg() == c.Types && c.decl(g) != nil && takesOptsAt(g, par, id) {
+							if !facing[g] {
+								facing[g] = true
+								work = append(work, g)
+							}
 							return true // checked there
 						}
 					}
@@ -468,63 +510,17 @@ func ruleOptsImmutable(c *Ctx) {
 					}
 					bad = append(bad, "stored in a value whose readers do not all clone it")
 				case *ast.AssignStmt:
-					// options = optionsOrDefault(options): rebinding the local name to the clone
 					for _, l := range par.Lhs {
-						if l == ast.Expr(id) {
-							if call, ok := unparen(par.Rhs[0]).(*ast.CallExpr); ok {
-								if g, ok := c.callee(call).(*types.Func); ok && g == cloner {
-									reassigned = true
-									return true
-								}
-							}
+						if l == ast.Expr(id) && rebindPos != 0 && par.End() == rebindPos {
+							return true
 						}
 					}
 					bad = append(bad, "assigned in "+exprString(par.Lhs[0]))
 				default:
-					if reassigned && id.Pos() > fd.Body.Pos() {
-						// after `options = clone(options)` the name denotes the clone
-						return true
-					}
 					bad = append(bad, fmt.Sprintf("used in %T", par))
 				}
 				return true
 			})
-			// uses after the rebinding are uses of the clone: filter by position
-			if reassigned {
-				var rebindPos token.Pos
-				ast.Inspect(fd.Body, func(n ast.Node) bool {
-					if as, ok := n.(*ast.AssignStmt); ok && len(as.Lhs) == 1 {
-						if id, ok := as.Lhs[0].(*ast.Ident); ok && c.objOf(id) == po && rebindPos == 0 {
-							rebindPos = as.End()
-						}
-					}
-					return true
-				})
-				// re-scan only uses before the rebinding
-				bad = nil
-				ast.Inspect(fd.Body, func(n ast.Node) bool {
-					id, ok := n.(*ast.Ident)
-					if !ok || c.objOf(id) != po || id.Pos() >= rebindPos {
-						return true
-					}
-					switch par := parents[id].(type) {
-					case *ast.CallExpr:
-						if g, ok := c.callee(par).(*types.Func); ok && g == cloner {
-							return true
-						}
-						bad = append(bad, "passed to "+exprString(par.Fun))
-					case *ast.AssignStmt:
-					case *ast.BinaryExpr:
-						if isNilIdent(c, par.X) || isNilIdent(c, par.Y) {
-							return true
-						}
-						bad = append(bad, "used in "+exprString(par))
-					default:
-						bad = append(bad, fmt.Sprintf("used in %T", par))
-					}
-					return true
-				})
-			}
 			sort.Strings(bad)
 			c.ob(rule, c.funcName(fd)+":param-only-cloned", fd.Pos(), len(bad) == 0, fmt.Sprintf("the caller's options pointer is %v before being cloned: internal changes (normalised base, transitive base) become visible to the caller", bad))
 		}
